@@ -463,6 +463,35 @@ fn recover_and_check_inner(store_dir: &Path, acks: &[Value], soft: &mut Vec<(Str
             return Err(("append_after_crash".into(), format!("append after restart fails on {t}: {e}")));
         }
     }
+    // the thread index: every thread an acknowledged operation created (the default thread, the
+    // children of acknowledged branch / handoff calls) is still listed, and the acknowledged
+    // default thread is still the default
+    {
+        let listed: std::collections::BTreeSet<String> = store.list().into_iter().map(|m| m.continuity_id).collect();
+        let acked_default = acks.iter().find(|a| a["i"] == json!(-1) && a["ok"] == json!(true)).and_then(|a| a["thread"].as_str().map(|s| s.to_string()));
+        let mut acked_threads: Vec<String> = acked_default.iter().cloned().collect();
+        for a in acks {
+            if a["ok"] == json!(true) {
+                for t in a["tokens"].as_array().cloned().unwrap_or_default() {
+                    if let Some(t) = t.as_str() {
+                        if t.len() == 36 && threads.iter().any(|x| x == t) {
+                            acked_threads.push(t.to_string());
+                        }
+                    }
+                }
+            }
+        }
+        for t in &acked_threads {
+            if !listed.contains(t) {
+                return Err(("acknowledged_thread_not_listed_after_crash".into(), format!("thread {t} was created by an acknowledged operation; after the restart the thread index lists {listed:?}")));
+            }
+        }
+        if let (Some(want), Ok(got)) = (&acked_default, store.ensure_default()) {
+            if *want != got {
+                return Err(("default_thread_changed_after_crash".into(), format!("the acknowledged default thread was {want}; after the restart ensure_default answers {got}")));
+            }
+        }
+    }
     match store.ensure_default() {
         Err(e) => return Err(("ensure_default_after_crash".into(), format!("ensure_default after restart fails: {e}"))),
         Ok(default) => {
